@@ -203,7 +203,7 @@ pub struct RunResult {
     pub fails: Vec<Fail>,
 }
 
-fn mix(a: u64, b: u64) -> u64 {
+pub fn mix(a: u64, b: u64) -> u64 {
     let mut x = a ^ b.wrapping_mul(0x9E3779B97F4A7C15);
     x ^= x >> 31;
     x = x.wrapping_mul(0xBF58476D1CE4E5B9);
